@@ -264,3 +264,42 @@ def local_of(fn, i):
     if nd["k"] == "DeclRef" and nd["ref"] in ("local", "param"):
         return nd["decl"]
     return None
+
+
+def edges_excluded_when(fn, is_subject, value):
+    """CFG edges that cannot be taken when the expression accepted by is_subject(fn, node) has the
+    integer value `value`: the wrong arm of `subject == C` / `subject != C` tests (also under !, && and
+    || as the CFG splits them) and the case labels of a `switch (subject)` that do not carry the value
+    (the default edge when some case does).  Independent of whether the source uses an if-chain, a
+    disjunction or a switch."""
+    out = set()
+    for (s0, d0, c, pol) in fn.cfg.cond_edges():
+        j = fn.strip(c)
+        nd = fn.nodes[j]
+        neg = False
+        while nd["k"] == "Un" and nd["op"] == "!":
+            j = fn.strip(nd["ch"][0])
+            nd = fn.nodes[j]
+            neg = not neg
+        if nd["k"] != "Bin" or nd["op"] not in ("==", "!="):
+            continue
+        a, b = nd["ch"]
+        for (x, y) in ((a, b), (b, a)):
+            cv = fn.constval(y)
+            if cv is not None and is_subject(fn, x):
+                truth = ((value == cv) == (nd["op"] == "==")) != neg
+                if truth != pol:
+                    out.add((s0, d0))
+    for (s0, d0, c, vals) in fn.cfg.switch_edges():
+        if c is None or c < 0 or not is_subject(fn, c):
+            continue
+        allv = set()
+        for (s1, d1, c1, v1) in fn.cfg.switch_edges():
+            if s1 == s0 and v1 is not None:
+                allv |= v1
+        if vals is None:
+            if value in allv:
+                out.add((s0, d0))
+        elif value not in vals:
+            out.add((s0, d0))
+    return out
